@@ -194,56 +194,55 @@ Example full_ok_example :
                    mkent 3 [nD; nE] (Link nT); mkent 4 [nC] fileB; mkent 5 [nD; nC] fileA] [nC]) = true.
 Proof. vm_compute. reflexivity. Qed.
 
-(* rename + chmod: the exec bit is silently lost *)
+(* the witnesses of the defects repaired by c541353, e87df2d, 46295b6 (now
+   covered by the guard: see [repaired_witnesses_guard]) *)
 Definition w_exec_old := mkt [mkent 1 [nA] fileA].
-Definition w_exec_new := mkt [mkent 1 [nB] (File [65]%N true)].
-(* rename + kind change file -> directory: an empty FILE is left behind *)
-Definition w_kind_new := mkt [mkent 1 [nE] Dir].
-(* rename + new symlink target: the symlink becomes an empty file *)
+Definition w_exec_new := mkt [mkent 1 [nB] (File [65]%N true)].          (* rename + chmod *)
+Definition w_kind_new := mkt [mkent 1 [nE] Dir].                          (* rename + kind change *)
 Definition w_retarget_old := mkt [mkent 1 [nA] (Link nT)].
-Definition w_retarget_new := mkt [mkent 1 [nB] (Link nU)].
-(* a directory and a file in it renamed in one revision: NoSuchFile *)
+Definition w_retarget_new := mkt [mkent 1 [nB] (Link nU)].                (* rename + new target *)
+Definition w_onto_old := mkt [mkent 1 [nD] Dir; mkent 2 [nD; nA] fileA; mkent 3 [nE] Dir].
+Definition w_onto_new := mkt [mkent 3 [nD] Dir].                          (* onto a removed directory *)
 Definition w_nested_old := mkt [mkent 1 [nD] Dir; mkent 2 [nD; nA] fileA].
+Definition w_kcsub_new := mkt [mkent 1 [nE] Dir; mkent 2 [nE; nA] (Link nT)].  (* kind change below a rename *)
+Definition w_lnsub_old := mkt [mkent 1 [nD] Dir].
+Definition w_lnsub_new := mkt [mkent 1 [nD] Dir; mkent 2 [nD; nA] (Link nT)].  (* symlink below the root *)
+Definition w_lnmod_new := mkt [mkent 1 [nA] (Link nU)].                   (* symlink target modified *)
+
+Theorem repaired_witnesses_guard :
+  upload_guard w_exec_old w_exec_new = true /\
+  upload_guard w_exec_old w_kind_new = true /\
+  upload_guard w_retarget_old w_retarget_new = true /\
+  upload_guard w_onto_old w_onto_new = true /\
+  upload_guard w_nested_old w_kcsub_new = true /\
+  upload_guard w_lnsub_old w_lnsub_new = true /\
+  upload_guard w_retarget_old w_lnmod_new = true.
+Proof. vm_compute. repeat split. Qed.
+
+(* the residue of the rename ordering *)
+(* a directory and a file in it renamed in one revision: NoSuchFile *)
 Definition w_nested_new := mkt [mkent 1 [nE] Dir; mkent 2 [nE; nB] fileA].
 (* a file moved into a directory created by the same revision: NoSuchFile *)
 Definition w_newdir_new := mkt [mkent 1 [nE; nA] fileA; mkent 2 [nE] Dir].
-(* a directory renamed onto the path of a removed (non-empty) directory:
-   the upload "succeeds" and the directory is gone *)
-Definition w_onto_old := mkt [mkent 1 [nD] Dir; mkent 2 [nD; nA] fileA; mkent 3 [nE] Dir].
-Definition w_onto_new := mkt [mkent 3 [nD] Dir].
-(* kind change below a renamed directory: NoSuchFile *)
-Definition w_kcsub_new := mkt [mkent 1 [nE] Dir; mkent 2 [nE; nA] (Link nT)].
 (* removed non-empty directory below a renamed directory: NoSuchFile *)
 Definition w_rmsub_old := mkt [mkent 1 [nD] Dir; mkent 2 [nD; nC] Dir; mkent 3 [nD; nC; nA] fileA].
 Definition w_rmsub_new := mkt [mkent 1 [nE] Dir].
-(* symlink added in a sub-directory: InvalidURL; modified symlink: FileExists *)
-Definition w_lnsub_old := mkt [mkent 1 [nD] Dir].
-Definition w_lnsub_new := mkt [mkent 1 [nD] Dir; mkent 2 [nD; nA] (Link nT)].
-Definition w_lnmod_new := mkt [mkent 1 [nA] (Link nU)].
+(* a renamed directory that becomes a file while a non-empty sub-directory of it
+   is removed: the deferred rmdir of the directory comes before the one of the
+   sub-directory: DirectoryNotEmpty *)
+Definition w_recdir_new := mkt [mkent 1 [nE] fileB; mkent 3 [nA] fileA].
 
 Definition incr_refuted (old new : tree) : Prop :=
   valid_tree old = true /\ valid_tree new = true /\
   forall k, ~ exact_run (run (upload_incremental old new k) (ust0 (fs_of old))) new.
 
-Theorem refuted_rename_exec : incr_refuted w_exec_old w_exec_new.
-Proof. split; [reflexivity|]. split; [reflexivity|]. refute_at [nB]. Qed.
-Theorem refuted_rename_kind : incr_refuted w_exec_old w_kind_new.
-Proof. split; [reflexivity|]. split; [reflexivity|]. refute_at [nE]. Qed.
-Theorem refuted_rename_retarget : incr_refuted w_retarget_old w_retarget_new.
-Proof. split; [reflexivity|]. split; [reflexivity|]. refute_at [nB]. Qed.
 Theorem refuted_nested_rename : incr_refuted w_nested_old w_nested_new.
 Proof. split; [reflexivity|]. split; [reflexivity|]. refute_err. Qed.
 Theorem refuted_rename_into_new_dir : incr_refuted w_exec_old w_newdir_new.
 Proof. split; [reflexivity|]. split; [reflexivity|]. refute_err. Qed.
-Theorem refuted_rename_onto_removed_dir : incr_refuted w_onto_old w_onto_new.
-Proof. split; [reflexivity|]. split; [reflexivity|]. refute_at [nD]. Qed.
-Theorem refuted_kind_change_under_rename : incr_refuted w_nested_old w_kcsub_new.
-Proof. split; [reflexivity|]. split; [reflexivity|]. refute_err. Qed.
 Theorem refuted_removed_subdir_under_rename : incr_refuted w_rmsub_old w_rmsub_new.
 Proof. split; [reflexivity|]. split; [reflexivity|]. refute_err. Qed.
-Theorem refuted_symlink_in_subdir : incr_refuted w_lnsub_old w_lnsub_new.
-Proof. split; [reflexivity|]. split; [reflexivity|]. refute_err. Qed.
-Theorem refuted_symlink_modified : incr_refuted w_retarget_old w_lnmod_new.
+Theorem refuted_recreated_dir_deferred_subdir : incr_refuted w_rmsub_old w_recdir_new.
 Proof. split; [reflexivity|]. split; [reflexivity|]. refute_err. Qed.
 
 (* a full upload does not delete what an earlier upload left: it is exact only
@@ -253,12 +252,4 @@ Theorem refuted_full_keeps_stale :
     forall k, ~ exact_run (run (upload_full new k) (ust0 (fs_of old))) new.
 Proof.
   exists w_exec_old, (mkt []). split; [reflexivity|]. split; [reflexivity|]. refute_at [nA].
-Qed.
-(* ... and fails when a symlink has to replace a regular file *)
-Theorem refuted_full_symlink_over_file :
-  exists old new, valid_tree old = true /\ valid_tree new = true /\
-    forall k, ~ exact_run (run (upload_full new k) (ust0 (fs_of old))) new.
-Proof.
-  exists w_exec_old, (mkt [mkent 1 [nA] (Link nT)]).
-  split; [reflexivity|]. split; [reflexivity|]. refute_err.
 Qed.
